@@ -126,6 +126,10 @@ def run_history(binary, lang_id, steps, delays='', settle=0.8, timeout=30.0):
     for kind, uri, ver, text, gap in steps:
         if kind == 'open':
             s.notify('textDocument/didOpen', {'textDocument': {'uri': uri, 'languageId': lang_id, 'version': ver, 'text': text}})
+        elif kind == 'change2':
+            # one notification carrying two full-text changes: they apply in order, the document is the last one
+            broken = text.replace('\n', ' )(\n', 1) if '\n' in text else text + ' )('
+            s.notify('textDocument/didChange', {'textDocument': {'uri': uri, 'version': ver}, 'contentChanges': [{'text': broken}, {'text': text}]})
         else:
             s.notify('textDocument/didChange', {'textDocument': {'uri': uri, 'version': ver}, 'contentChanges': [{'text': text}]})
         last[uri] = ver
